@@ -310,11 +310,14 @@ Definition sort_by {A} (key : A -> Z) (l : list A) : list A := fold_right (ins_b
 (* The iterator without recursion support                                      *)
 
 (* one extracted field: its description, whether this value of it is kept, the events of the value *)
-Definition item := (finfo * bool * list event)%type.
-Definition item_order (it : item) : Z := f_order (fst (fst it)).
+Definition gitem (A : Type) := (finfo * bool * A)%type.
+Definition gitem_order {A} (it : gitem A) : Z := f_order (fst (fst it)).
+(* the fields in emission order / the fields of this value that are emitted *)
+Definition sorted_items {A} (its : list (gitem A)) : list (gitem A) := sort_by gitem_order its.
+Definition kept_items {A} (its : list (gitem A)) : list (gitem A) :=
+  filter (fun it => snd (fst it)) (sorted_items its).
 
-Definition kept_items (its : list item) : list item :=
-  filter (fun it => snd (fst it)) (sort_by item_order its).
+Definition item := gitem (list event).
 
 (* newStructIterator *)
 Definition struct_events (cfg : icfg) (its : list item) : list event :=
@@ -403,11 +406,12 @@ Fixpoint ins_rt (x : rectype) (l : list rectype) : list rectype :=
 Definition sort_records (l : list rectype) : list rectype := fold_right ins_rt [] l.
 
 (* typeIterator: shouldIncludeField is evaluated on reflect.ValueOf(1), which is neither empty nor zero *)
+Definition decl_keys (cfg : icfg) (r : rectype) : list bytes :=
+  map (fun it : item => field_name cfg (fst (fst it)))
+      (filter (fun it : item => should_include cfg (fst (fst it)) false false)
+              (sorted_items (items_of cfg (VStruct (rt_sid r) (rt_proto r))))).
 Definition rectype_events (cfg : icfg) (r : rectype) : list event :=
-  let its := items_of cfg (VStruct (rt_sid r) (rt_proto r)) in
-  let declared := filter (fun it => should_include cfg (fst (fst it)) false false) (sort_by item_order its) in
-  ERecordType (rt_name r)
-    :: map (fun it => EStringArray AT_String (field_name cfg (fst (fst it)))) declared ++ [EEnd].
+  ERecordType (rt_name r) :: map (fun k => EStringArray AT_String k) (decl_keys cfg r) ++ [EEnd].
 
 Definition rectypes_events (cfg : icfg) : list event :=
   flat_map (rectype_events cfg) (sort_records (c_records cfg)).
@@ -475,10 +479,15 @@ Fixpoint named_find (a : N) (l : list (N * N)) : option N :=
   | (a', n) :: t => if a =? a' then Some n else named_find a t
   end.
 
-Definition emitter := st -> list event * st.
-Definition emit (es : list event) : emitter := fun s => (es, s).
+(* an emitter delivers events and either the next state or a panic (None) *)
+Definition emitter := st -> list event * option st.
+Definition emit (es : list event) : emitter := fun s => (es, Some s).
+Definition panic_em : emitter := fun _ => ([], None).
 Definition seq_em (a b : emitter) : emitter :=
-  fun s => let (e1, s1) := a s in let (e2, s2) := b s1 in (e1 ++ e2, s2).
+  fun s => match a s with
+           | (e1, Some s1) => let (e2, r) := b s1 in (e1 ++ e2, r)
+           | (e1, None) => (e1, None)
+           end.
 Fixpoint seq_all (l : list emitter) : emitter :=
   match l with
   | [] => emit []
@@ -494,22 +503,19 @@ Definition with_ref (dups : list N) (a : N) (body : emitter) : emitter :=
           let n := next_marker s in
           let (e, s') := body {| named := (a, n) :: named s; next_marker := (n + 1) mod 4294967296 |} in
           (EMarker (dec_bytes n) :: e, s')
-      | Some n => ([ERefLocal (dec_bytes n)], s)
+      | Some n => ([ERefLocal (dec_bytes n)], Some s)
       end
     else body s.
 
-Definition ritem := (finfo * bool * emitter)%type.
-Definition ritem_order (it : ritem) : Z := f_order (fst (fst it)).
-Definition kept_ritems (its : list ritem) : list ritem :=
-  filter (fun it => snd (fst it)) (sort_by ritem_order its).
+Definition ritem := gitem emitter.
 
 Definition struct_em (cfg : icfg) (its : list ritem) : emitter :=
   seq_em (emit [EMap])
    (seq_em (seq_all (map (fun it => seq_em (emit [EStringArray AT_String (field_name cfg (fst (fst it)))]) (snd it))
-                         (kept_ritems its)))
+                         (kept_items its)))
            (emit [EEnd])).
 Definition record_em (name : bytes) (its : list ritem) : emitter :=
-  seq_em (emit [ERecord name]) (seq_em (seq_all (map (fun it => snd it) (kept_ritems its))) (emit [EEnd])).
+  seq_em (emit [ERecord name]) (seq_em (seq_all (map (fun it => snd it) (kept_items its))) (emit [EEnd])).
 
 Fixpoint rwalk (cfg : icfg) (dups : list N) (v : gval) {struct v} : emitter * list ritem :=
   match v with
@@ -517,7 +523,9 @@ Fixpoint rwalk (cfg : icfg) (dups : list N) (v : gval) {struct v} : emitter * li
       (with_ref dups a
          (seq_em (emit [EList]) (seq_em (seq_all (map (fun x => fst (rwalk cfg dups x)) es)) (emit [EEnd]))), [])
   | VArray es =>
-      (seq_em (emit [EList]) (seq_em (seq_all (map (fun x => fst (rwalk cfg dups x)) es)) (emit [EEnd])), [])
+      (* newSliceOrArrayAsListIterator calls TryAddLocalReference(v) for arrays too, and
+         duplicates.TypedPointerOfRV calls reflect.Value.Pointer, which panics on an array *)
+      (panic_em, [])
   | VMap a kvs =>
       (with_ref dups a
          (seq_em (emit [EMap])
@@ -554,19 +562,323 @@ Fixpoint rwalk (cfg : icfg) (dups : list N) (v : gval) {struct v} : emitter * li
   | other => (emit (plain cfg other), [])
   end.
 
-Definition recursive (cfg : icfg) (v : gval) : list event :=
-  fst (fst (rwalk cfg (dups_of v) v) st0).
+(* events, and whether the iteration ran to completion *)
+Definition recursive (cfg : icfg) (v : gval) : list event * bool :=
+  match fst (rwalk cfg (dups_of v) v) st0 with
+  | (es, Some _) => (es, true)
+  | (es, None) => (es, false)
+  end.
 
 (* ------------------------------------------------------------------------- *)
 (* RootObjectIterator.Iterate                                                  *)
 
-Definition value_events (cfg : icfg) (v : gval) : list event :=
-  if c_recursion cfg then recursive cfg v else plain cfg v.
+Definition value_outcome (cfg : icfg) (v : gval) : list event * bool :=
+  if c_recursion cfg then recursive cfg v else (plain cfg v, true).
 
-(* root = None: Iterate(nil) *)
-Definition iterate (cfg : icfg) (root : option gval) : list event :=
-  EBeginDoc :: EVersion 0 ::
-    match root with
-    | None => [ENull]
-    | Some v => rectypes_events cfg ++ value_events cfg v
-    end ++ [EEndDoc].
+(* root = None: Iterate(nil).  Result: the events delivered, and false when the iteration
+   panicked (nothing is delivered after the panic, in particular no end of document). *)
+Definition iterate_outcome (cfg : icfg) (root : option gval) : list event * bool :=
+  match root with
+  | None => ([EBeginDoc; EVersion 0; ENull; EEndDoc], true)
+  | Some v =>
+      let (es, ok) := value_outcome cfg v in
+      (EBeginDoc :: EVersion 0 :: rectypes_events cfg ++ es ++ (if ok then [EEndDoc] else []), ok)
+  end.
+Definition iterate (cfg : icfg) (root : option gval) : list event := fst (iterate_outcome cfg root).
+
+(* ------------------------------------------------------------------------- *)
+(* What an event stream describes                                             *)
+
+(* the value a document describes.  A record is the map from the keys its record type declares
+   to its values; scalars that are one event are kept as that event. *)
+Inductive dval :=
+| DNull
+| DScalar (e : event)
+| DString (s : bytes)
+| DRid (s : bytes)
+| DNums (t : arrty) (elems : list N)      (* element i = the little-endian number in bytes [i*w, (i+1)*w) *)
+| DBits (l : list bool)                   (* element i = bit (i mod 8) of byte (i / 8) *)
+| DList (l : list dval)
+| DMap (kvs : list (dval * dval))
+| DNode (v : dval) (children : list dval)
+| DEdge (s d t : dval)
+| DMarked (id : bytes) (v : dval)
+| DRef (id : bytes).
+
+(* containers being read; accumulators are in reverse order *)
+Inductive frame :=
+| FList (acc : list dval)
+| FMap (acc : list dval)
+| FRecord (keys : list bytes) (acc : list dval)
+| FRecType (name : bytes) (acc : list dval)
+| FNode (acc : list dval)
+| FEdge (acc : list dval)
+| FMarked (id : bytes).
+
+Record rstate := mkRS {
+  rs_env : list (bytes * list bytes);   (* record types declared so far: name, keys *)
+  rs_stack : list frame;
+  rs_done : list dval;                  (* completed top-level values *)
+  rs_ended : bool;
+}.
+Definition rs0 : rstate := mkRS [] [] [] false.
+
+(* a value is complete: it goes to the innermost open container *)
+Fixpoint push (v : dval) (env : list (bytes * list bytes)) (stk : list frame) (done : list dval) : rstate :=
+  match stk with
+  | [] => mkRS env [] (done ++ [v]) false
+  | FMarked id :: s => push (DMarked id v) env s done
+  | FList acc :: s => mkRS env (FList (v :: acc) :: s) done false
+  | FMap acc :: s => mkRS env (FMap (v :: acc) :: s) done false
+  | FRecord ks acc :: s => mkRS env (FRecord ks (v :: acc) :: s) done false
+  | FRecType n acc :: s => mkRS env (FRecType n (v :: acc) :: s) done false
+  | FNode acc :: s => mkRS env (FNode (v :: acc) :: s) done false
+  | FEdge acc :: s => mkRS env (FEdge (v :: acc) :: s) done false
+  end.
+Definition push_st (v : dval) (st : rstate) : rstate := push v (rs_env st) (rs_stack st) (rs_done st).
+Definition open_frame (f : frame) (st : rstate) : rstate :=
+  mkRS (rs_env st) (f :: rs_stack st) (rs_done st) false.
+
+Fixpoint pair_up (l : list dval) : option (list (dval * dval)) :=
+  match l with
+  | [] => Some []
+  | k :: v :: r => match pair_up r with Some t => Some ((k, v) :: t) | None => None end
+  | _ => None
+  end.
+Fixpoint all_strings (l : list dval) : option (list bytes) :=
+  match l with
+  | [] => Some []
+  | DString s :: r => match all_strings r with Some t => Some (s :: t) | None => None end
+  | _ => None
+  end.
+Fixpoint env_find (n : bytes) (env : list (bytes * list bytes)) : option (list bytes) :=
+  match env with
+  | [] => None
+  | (n', ks) :: r => if bytes_eqb n n' then Some ks else env_find n r
+  end.
+
+Definition num_width (t : arrty) : option nat :=
+  if (t =? AT_Uint8) || (t =? AT_Int8) then Some 1%nat
+  else if (t =? AT_Uint16) || (t =? AT_Int16) || (t =? AT_Float16) then Some 2%nat
+  else if (t =? AT_Uint32) || (t =? AT_Int32) || (t =? AT_Float32) then Some 4%nat
+  else if (t =? AT_Uint64) || (t =? AT_Int64) || (t =? AT_Float64) then Some 8%nat
+  else None.
+
+(* n elements of w bytes each, nothing left over *)
+Fixpoint chunks (w n : nat) (data : bytes) : option (list N) :=
+  match n with
+  | O => match data with [] => Some [] | _ => None end
+  | S k =>
+      if (length data <? w)%nat then None
+      else match chunks w k (skipn w data) with
+           | Some r => Some (le_decode (firstn w data) :: r)
+           | None => None
+           end
+  end.
+
+Fixpoint byte_bits (k : nat) (b : N) (i : N) : list bool :=
+  match k with
+  | O => []
+  | S k' => N.testbit b i :: byte_bits k' b (i + 1)
+  end.
+(* n bits, least significant bit of the first byte first, ceil(n/8) bytes *)
+Fixpoint unpack_bits (n : nat) (data : bytes) : option (list bool) :=
+  match data with
+  | [] => if (n =? 0)%nat then Some [] else None
+  | b :: r =>
+      if (n =? 0)%nat then None
+      else let m := Nat.min 8 n in
+           match unpack_bits (n - m) r with
+           | Some t => Some (byte_bits m b 0 ++ t)
+           | None => None
+           end
+  end.
+
+Definition read_array (t : arrty) (count : N) (data : bytes) : option dval :=
+  if t =? AT_Bit then
+    match unpack_bits (N.to_nat count) data with Some l => Some (DBits l) | None => None end
+  else match num_width t with
+       | Some w => match chunks w (N.to_nat count) data with Some l => Some (DNums t l) | None => None end
+       | None => None
+       end.
+
+Definition close_frame (f : frame) (env : list (bytes * list bytes)) (stk : list frame) (done : list dval) : option rstate :=
+  match f with
+  | FList acc => Some (push (DList (rev acc)) env stk done)
+  | FMap acc => match pair_up (rev acc) with Some kvs => Some (push (DMap kvs) env stk done) | None => None end
+  | FRecord ks acc =>
+      if (length ks =? length acc)%nat
+      then Some (push (DMap (combine (map DString ks) (rev acc))) env stk done)
+      else None
+  | FRecType n acc =>
+      match all_strings (rev acc), stk with
+      | Some ks, [] => Some (mkRS (env ++ [(n, ks)]) [] done false)
+      | _, _ => None
+      end
+  | FNode acc => match rev acc with v :: ch => Some (push (DNode v ch) env stk done) | [] => None end
+  | FEdge acc => match rev acc with [a; b; c] => Some (push (DEdge a b c) env stk done) | _ => None end
+  | FMarked _ => None
+  end.
+
+Definition rd_step (st : rstate) (e : event) : option rstate :=
+  if rs_ended st then None else
+  match e with
+  | ENull => Some (push_st DNull st)
+  | EBool _ | ETrue | EFalse | EPosInt _ | ENegInt _ | EInt _ | EBigInt _ | EFloat _ | EBigFloat _
+  | EDecimal _ | EBigDecimal _ | ENan _ | EUid _ | ETime _ | EMedia _ _ | ECustomBin _ _ | ECustomText _ _ =>
+      Some (push_st (DScalar e) st)
+  | EStringArray t s =>
+      if t =? AT_String then Some (push_st (DString s) st)
+      else if t =? AT_ResourceID then Some (push_st (DRid s) st)
+      else Some (push_st (DScalar e) st)
+  | EArray t n data => match read_array t n data with Some v => Some (push_st v st) | None => None end
+  | EList => Some (open_frame (FList []) st)
+  | EMap => Some (open_frame (FMap []) st)
+  | ENode => Some (open_frame (FNode []) st)
+  | EEdge => Some (open_frame (FEdge []) st)
+  | ERecord n => match env_find n (rs_env st) with Some ks => Some (open_frame (FRecord ks []) st) | None => None end
+  | ERecordType n => match rs_stack st with [] => Some (open_frame (FRecType n []) st) | _ => None end
+  | EMarker id => Some (open_frame (FMarked id) st)
+  | ERefLocal id => Some (push_st (DRef id) st)
+  | EEnd => match rs_stack st with
+            | f :: stk => close_frame f (rs_env st) stk (rs_done st)
+            | [] => None
+            end
+  | EEndDoc => match rs_stack st with [] => Some (mkRS (rs_env st) [] (rs_done st) true) | _ => None end
+  | _ => None
+  end.
+
+Fixpoint rd_run (st : rstate) (es : list event) : option rstate :=
+  match es with
+  | [] => Some st
+  | e :: r => match rd_step st e with Some st1 => rd_run st1 r | None => None end
+  end.
+
+(* the value a whole document describes *)
+Definition read_doc (es : list event) : option dval :=
+  match es with
+  | EBeginDoc :: EVersion _ :: body =>
+      match rd_run rs0 body with
+      | Some st => if rs_ended st then match rs_done st with [v] => Some v | _ => None end else None
+      | None => None
+      end
+  | _ => None
+  end.
+
+(* ------------------------------------------------------------------------- *)
+(* What a Go value is, as a document value (the right-hand side of "describes exactly") *)
+
+(* float32 -> float64, exact, NaN payload and signalling state kept *)
+Definition widen_exact (w : N) : N :=
+  let s := w32_sign w in
+  let e := w32_expo w in
+  let m := w32_mant w in
+  if e =? 255 then mk64 s 2047 (m * p29)
+  else if e =? 0 then
+    if m =? 0 then mk64 s 0 0
+    else let l := N.log2 m in mk64 s (l + 874) ((m - 2 ^ l) * 2 ^ (52 - l))
+  else mk64 s (e + 896) (m * p29).
+
+Definition elem_pattern (k : akind) (z : Z) : N := Z.to_N (z mod 2 ^ (8 * Z.of_nat (width_of k)))%Z.
+
+Definition citem := gitem dval.
+(* a struct (registered as a record type or not): its kept fields, by emitted name *)
+Definition struct_dval (cfg : icfg) (its : list citem) : dval :=
+  DMap (map (fun it => (DString (field_name cfg (fst (fst it))), snd it)) (kept_items its)).
+
+Fixpoint cwalk (cfg : icfg) (v : gval) {struct v} : dval * list citem :=
+  match v with
+  | VBool b => (DScalar (EBool b), [])
+  | VInt z => (DScalar (EInt z), [])
+  | VUint n => (DScalar (EPosInt n), [])
+  | VF32 w => (DScalar (EFloat (widen_exact w)), [])
+  | VF64 b => (DScalar (EFloat b), [])
+  | VString s => (DString s, [])
+  | VNum _ k es => (DNums (at_of k) (map (elem_pattern k) es), [])
+  | VBools _ l => (DBits l, [])
+  | VNilSlice | VNilMap | VNilPtr | VNilIface => (DNull, [])
+  | VSlice _ es | VArray es => (DList (map (fun x => fst (cwalk cfg x)) es), [])
+  | VMap _ kvs => (DMap (map (fun kv => (fst (cwalk cfg (fst kv)), fst (cwalk cfg (snd kv)))) kvs), [])
+  | VPtr _ p | VOPtr p | VIface p => (fst (cwalk cfg p), [])
+  | VStruct sid fs =>
+      let its :=
+        (fix go (fs : list (finfo * gval)) : list citem :=
+           match fs with
+           | [] => []
+           | (i, x) :: r =>
+               (if extractable i then
+                  if f_anon i then snd (cwalk cfg x)
+                  else [(i, should_include cfg i (is_empty x) (is_value_zero x), fst (cwalk cfg x))]
+                else []) ++ go r
+           end) fs in
+      (struct_dval cfg its, its)
+  | VTime _ t => (DScalar (ETime t), [])
+  | VUrl _ t => (DRid t, [])
+  | VBigInt _ z => (DScalar (EBigInt (Some z)), [])
+  | VBigFloat _ f => (DScalar (EBigFloat (Some f)), [])
+  | VBigDec _ d => (DScalar (EBigDecimal (Some d)), [])
+  | VDFloat _ d => (DScalar (EDecimal d), [])
+  | VUid b => (DScalar (EUid b), [])
+  | VMedia _ mt data => (DScalar (EMedia mt data), [])
+  | VNode x ch =>
+      (DNode (fst (cwalk cfg x))
+             (match ch with VSlice _ es => map (fun c => fst (cwalk cfg c)) es | _ => [] end), [])
+  | VEdge a b c => (DEdge (fst (cwalk cfg a)) (fst (cwalk cfg b)) (fst (cwalk cfg c)), [])
+  end.
+
+Definition canon (cfg : icfg) (v : gval) : dval := fst (cwalk cfg v).
+Definition canon_root (cfg : icfg) (root : option gval) : dval :=
+  match root with None => DNull | Some v => canon cfg v end.
+
+(* ------------------------------------------------------------------------- *)
+(* The domain of the theorems (Proofs/IterateProofs.v)                         *)
+
+(* a signalling float32 NaN *)
+Definition is_snan32 (w : N) : bool := w32_is_nan w && negb (N.testbit w 22).
+
+(* the record types as the reader knows them after the head of the document *)
+Definition decl_env (cfg : icfg) : list (bytes * list bytes) :=
+  map (fun r => (rt_name r, decl_keys cfg r)) (sort_records (c_records cfg)).
+(* every registered record type's name resolves to its own declaration (true when names are distinct) *)
+Definition records_ok (cfg : icfg) : bool :=
+  forallb (fun r => match env_find (rt_name r) (decl_env cfg) with
+                    | Some ks => list_eqb bytes_eqb ks (decl_keys cfg r)
+                    | None => false
+                    end) (c_records cfg).
+
+(* [descr cfg v]: v avoids the defect classes of the iterator:
+   - no types.Edge (no end-container event is emitted for it),
+   - no bool slice/array longer than 8 (iterateSliceOrArrayBool re-reads the first 8 elements),
+   - every value of a registered record type keeps exactly the fields its type declares
+     (newRecordIterators decides per value, the type was declared with all),
+   - no signalling float32 NaN (reflect's Float() goes through float64 and quiets it). *)
+Fixpoint descr (cfg : icfg) (v : gval) {struct v} : bool :=
+  match v with
+  | VF32 w => negb (is_snan32 w)
+  | VNum _ AF32 es => forallb (fun z => negb (is_snan32 (elem_pattern AF32 z))) es
+  | VBools _ l => (length l <=? 8)%nat
+  | VSlice _ es | VArray es => forallb (descr cfg) es
+  | VMap _ kvs => forallb (fun kv => descr cfg (fst kv) && descr cfg (snd kv)) kvs
+  | VPtr _ p | VOPtr p | VIface p => descr cfg p
+  | VStruct sid fs =>
+      forallb (fun iv => descr cfg (snd iv)) fs &&
+      match find_record (c_records cfg) sid with
+      | Some r => list_eqb bytes_eqb (decl_keys cfg r)
+                    (map (fun it : item => field_name cfg (fst (fst it))) (kept_items (items_of cfg (VStruct sid fs))))
+      | None => true
+      end
+  | VNode x ch => descr cfg x && match ch with VSlice _ es => forallb (descr cfg) es | _ => true end
+  | VEdge _ _ _ => false
+  | _ => true
+  end.
+
+(* ------------------------------------------------------------------------- *)
+(* Correspondence cases: configuration, root value (None = nil), the events the
+   implementation delivered, and whether the iteration completed (false: it panicked),
+   and the index of the first event its validator (default limits) rejected. *)
+Definition iterate_case := (icfg * option gval * list event * bool * option N)%type.
+Definition iterate_case_ok (k : iterate_case) : bool :=
+  let '(cfg, root, evs, completed, rej) := k in
+  let (es, ok) := iterate_outcome cfg root in
+  list_eqb event_eqb es evs && Bool.eqb ok completed
+  && option_eqb N.eqb (rejected_at default_rcfg evs) rej.
